@@ -307,3 +307,108 @@ def policy_store(c):
     c.assumptions.append("policy store: one set name per kind, two statements, two policies, the global import assignment; per-peer "
                          "assignments (checked by the daemon before it calls the store) and export are not modelled; replace with an "
                          "empty element list is not generated")
+
+
+def _adm_cfg(name, consts, spec, invs, dev=()):
+    d = os.path.join(vf.WORK, "cfg")
+    os.makedirs(d, exist_ok=True)
+    p = os.path.join(d, name)
+    dv = ", ".join('"%s"' % k for k in dev)
+    with open(p, "w") as f:
+        f.write("CONSTANTS\n%s\n  Dev = {%s}\nSPECIFICATION %s\nINVARIANTS %s\nCHECK_DEADLOCK FALSE\n" % (consts, dv, spec, " ".join(invs)))
+    return p
+
+
+ADM_SMALL = '  Addrs = {"s", "d"}\n  DynAddrs = {"d"}\n  MaxSess = 3\n  MaxGen = 2'
+ADM_FULL = '  Addrs = {"s", "d", "u"}\n  DynAddrs = {"d"}\n  MaxSess = 4\n  MaxGen = 3'
+ADM_WALK = '  Addrs = {"s", "d", "u"}\n  DynAddrs = {"d"}\n  MaxSess = 6\n  MaxGen = 5'
+ADM_INVS = ["TypeOK", "OnePerDirection", "SlotHeld", "LiveIsAdmitted", "DynamicHasConnection"]
+
+
+def admission(c):
+    """C16 admission half: Admission.tla design check + random behaviours on the real accept_connection / run / API handlers."""
+    spec = os.path.join(vf.ROOT, "spec", "Admission")
+    thorough = c.tier == "thorough"
+    r = vf.tlc(spec, "Admission", _adm_cfg("C16.adm.design.cfg", ADM_FULL if thorough else ADM_SMALL, "Spec", ADM_INVS),
+               workers=12 if thorough else 6, timeout=2400)
+    c.add_tlc("admission-design", r)
+    if r.violated:
+        c.violation("admission.design", {"invariant": r.violated, "tlc": r.error_text[:3000]}, {"spec": "Admission"})
+        return 0
+    for dev in ("ForceDownFreesSlot", "EndIgnoresGeneration"):
+        rv = vf.tlc(spec, "Admission", _adm_cfg("C16.adm.dev.cfg", ADM_SMALL, "Spec", ADM_INVS, dev=[dev]), workers=4, timeout=600, quiet=True)
+        if not rv.violated:
+            raise vf.ToolError(f"Admission: invariants are vacuous (deviation {dev} not detected)")
+    num, depth = (2500, 30) if thorough else (250, 25)
+    rw = vf.tlc(spec, "AdmissionMC", _adm_cfg("C16.adm.walk.cfg", ADM_WALK, "GenSpec", ["EmitWalk"]),
+                workers=1, timeout=1500, simulate=num, depth=depth, seed=c.seed + 11, heap="4g")
+    walks = vf.parse_walks(rw.stdout)
+    c.add_tlc("admission-walks", rw)
+    if not walks:
+        raise vf.ToolError("AdmissionMC produced no walks")
+    inp = os.path.join(vf.WORK, "C16.adm.in")
+    outp = os.path.join(vf.WORK, "C16.adm.out")
+    exp = []
+    with open(inp, "w") as f:
+        for w in walks:
+            f.write("walk\n")
+            exp.append(None)
+            for stp in w:
+                o = stp["op"]
+                q = stp["post"]["closing"]       # sessions whose tail is pending after this step: the harness must not yield
+                if o["op"] == "connect":
+                    f.write(f"connect {o['a']} {o['dir']} {q}\n")
+                elif o["op"] in ("rclose", "end"):
+                    f.write(f"{o['op']} {o['id']} - {q}\n")
+                else:
+                    f.write(f"{o['op']} {o['a']} - {q}\n")
+                exp.append(stp)
+    vf.daemon_test("admission_replay", {"VERIF_IN": inp, "VERIF_OUT": outp}, timeout=2400)
+    got = vf.read_jsonl(outp)
+    if len(got) != len(exp):
+        raise vf.ToolError(f"admission_replay: {len(got)} results for {len(exp)} steps")
+    steps = 0
+    nw = 0
+    skip = False
+    hist = []
+    reported = set()
+    kinds = {}
+    for e, g in zip(exp, got):
+        if e is None:
+            nw += 1
+            skip = False
+            hist = []
+            continue
+        if skip:
+            continue
+        o = e["op"]
+        hist.append(o)
+        steps += 1
+        kinds[o["op"] + ":" + e["res"]] = kinds.get(o["op"] + ":" + e["res"], 0) + 1
+        bad = None
+        detail = {}
+        if g["res"] != e["res"]:
+            bad = "result"
+            detail = {"expected": e["res"], "actual": g["res"]}
+        else:
+            ce = sorted(vf.canon(x) for x in e["post"]["peers"])
+            cg = sorted(vf.canon(x) for x in g["state"]["peers"])
+            if ce != cg:
+                bad = "state"
+                detail = {"expected": ce, "actual": cg}
+            elif e["post"]["nsess"] != g["state"]["nsess"]:
+                bad = "sessions"
+                detail = {"expected": e["post"]["nsess"], "actual": g["state"]["nsess"]}
+        if bad:
+            skip = True
+            sig = (bad, o["op"])
+            if sig in reported:
+                continue
+            reported.add(sig)
+            c.violation("admission." + bad, dict(detail, op=o), {"spec": "Admission", "ops": hist})
+    c.cov["parts"]["admission-replay"] = {"behaviours": nw, "steps": steps, "kinds": kinds}
+    c.cov["traces_validated_against_impl"] = c.cov.get("traces_validated_against_impl", 0) + nw
+    c.assumptions.append("admission: three loopback IPv4 addresses (configured / inside the dynamic prefix 127.0.2.0/24 / unknown); at most one "
+                         "session tail pending at a time in the replayed behaviours (the model itself has no such restriction); IPv6 and "
+                         "prefix-length classes are covered by the containment table only")
+    return steps
